@@ -262,8 +262,38 @@ func execNotebook(ops []string, mon *Mon) (out []string) {
 	path := filepath.Join(dir, "home", ".config", "cmd-finder", "personal.yml")
 	var main, initial, shadow []database.Command
 	corrupt := false
+	ready := false
+	setup := func(kind string) {
+		ready = true
+		b, _ := yaml.Marshal(main)
+		if len(main) == 0 {
+			b = []byte("[]\n")
+		}
+		os.WriteFile(mainPath, b, 0o644)
+		os.MkdirAll(filepath.Dir(path), 0o755)
+		switch kind {
+		case "empty":
+			os.WriteFile(path, nil, 0o644)
+			mon.Tag("start-empty-file")
+		case "corrupt":
+			os.WriteFile(path, []byte("- command: [unclosed\n  {{{\n"), 0o644)
+			corrupt = true
+			mon.Tag("start-corrupt")
+		case "list":
+			b, _ := yaml.Marshal(initial)
+			os.WriteFile(path, b, 0o644)
+			shadow = append([]database.Command{}, initial...)
+			mon.Tag("start-populated")
+		default:
+			os.RemoveAll(filepath.Dir(path)) // the directory is created by the save
+			mon.Tag("start-missing")
+		}
+	}
 	for _, o := range ops {
 		f := strings.Fields(o)
+		if !ready && f[0] != "ent" && f[0] != "nb" {
+			setup("none") // a case without an `nb` line starts from a missing notebook (as the model does)
+		}
 		func() {
 			defer func() {
 				if r := recover(); r != nil {
@@ -282,29 +312,7 @@ func execNotebook(ops []string, mon *Mon) (out []string) {
 				}
 				out = append(out, "ok")
 			case "nb":
-				b, _ := yaml.Marshal(main)
-				if len(main) == 0 {
-					b = []byte("[]\n")
-				}
-				os.WriteFile(mainPath, b, 0o644)
-				os.MkdirAll(filepath.Dir(path), 0o755)
-				switch f[1] {
-				case "empty":
-					os.WriteFile(path, nil, 0o644)
-					mon.Tag("start-empty-file")
-				case "corrupt":
-					os.WriteFile(path, []byte("- command: [unclosed\n  {{{\n"), 0o644)
-					corrupt = true
-					mon.Tag("start-corrupt")
-				case "list":
-					b, _ := yaml.Marshal(initial)
-					os.WriteFile(path, b, 0o644)
-					shadow = append([]database.Command{}, initial...)
-					mon.Tag("start-populated")
-				default:
-					os.RemoveAll(filepath.Dir(path)) // the directory is created by the save
-					mon.Tag("start-missing")
-				}
+				setup(f[1])
 				out = append(out, "ok")
 			case "save":
 				e := database.Command{Command: UnHx(f[2]), Description: UnHx(f[3]), Keywords: nbUnHxList(f[4]), Niche: UnHx(f[5]), Platform: nbUnHxList(f[6]), Pipeline: f[7] == "1"}
@@ -343,13 +351,13 @@ func execNotebook(ops []string, mon *Mon) (out []string) {
 								nWant++
 							}
 						}
-						if idx >= len(got) || !nbSame(got[idx], e) {
+						if n > nWant {
+							cls = "duplicate-command"
+						} else if idx >= len(got) || !nbSame(got[idx], e) {
 							cls = "saved-entry-differs"
 							if idx < len(got) {
 								det["stored"] = nbPretty(strings.ReplaceAll(nbEntTok(got[idx]), ";", " "))
 							}
-						} else if n > nWant {
-							cls = "duplicate-command"
 						}
 						det["entries_before"], det["entries_after"] = len(shadow), len(got)
 						mon.Hit("C08", cls, det)
